@@ -10,7 +10,7 @@ class C04(Prop):
     id = 'C04'
     rule = ('exhaustive small scope: every buffer of 1..2 bytes from a 7-pattern set x every (start,end) x 4 ownership '
             'situations (u: unique, parent dropped, slack+stale bits; s: shared with live parent; b/c: borrowed static '
-            'without/with live parent) x every unary operation and every positional argument; pairs for append/insert/eq; '
+            'without/with live parent) x every unary operation (incl. reading the value as a signed/unsigned number in both byte orders) and every positional argument; pairs for append/insert/eq; '
             'chains append-after-append (intermediate kept or dropped) and append-after-invert; random cases up to 4k bits. '
             'After every operation the bits of every still-alive parent buffer are re-read (operands never modified). '
             'non-trivial = distinct case whose operand has start or end off a byte boundary, or slack after its end')
@@ -52,6 +52,11 @@ class C04(Prop):
                 v = '%s %d %d %s' % (h, s, e, own)
                 for op in UNARY:
                     cs.append('bs %s %s' % (op, v))
+                # reading the value as a number is a function of the bit sequence too (both byte orders, both signs)
+                if e - s <= 128 and (thorough or rng.random() < 0.5):
+                    for kind in ('touint', 'toint'):
+                        for o in ('le', 'be'):
+                            cs.append('bs %s %s %s' % (kind, o, v))
                 n = 0 if h == '-' else len(h) * 4
                 for pos in sorted({0, s, e, n, n + 1, (s + e) // 2, max(0, s - 1), e + 1}):
                     cs.append('bs seek %s %d' % (v, pos))
